@@ -302,6 +302,8 @@ def rgen_generated_decoders(ctx):
     from . import c17
     nd = c17.decode_errors_propagate(ctx, "C16.GEN")
     ctx.R.floor("C16.GEN", nd, 40, "parameter reads in generated server closures")
+    na = c17.server_args_come_from_decoders(ctx, "C16.GEN")
+    ctx.R.floor("C16.GEN.args", na, 60, "decoded arguments of generated server closures")
     nr = c17.subscription_decode_failures_are_rejected(ctx, "C16.GEN")
     ctx.R.floor("C16.GEN.reject", nr, 10, "parameter reads in generated subscription closures")
 
@@ -375,7 +377,15 @@ def control_poll_once(ctx):
 CONTROLS = [control_poll_once]
 
 
-LIB_RULES = [rrej_rejections_are_driven, r1_only_invalid_params, r2_poison_on_error, r3_exhaustion_table, r4_absent_params, rown_into_owned, rnext_reads_T, rws_separator_sees_no_whitespace, rone_is_one_array_parse]
+def rplain_request_decoder(ctx):
+    """the params text reaches the decoders whatever its shape: the Request / Notification decoders are the plain derived
+    ones (a validation hook on `params` makes the server take a call with scalar params for a notification and never
+    answer it, instead of -32602) (= C01.R8)"""
+    from . import c01
+    c01.r8_classifiers_are_plain(ctx)
+
+
+LIB_RULES = [rplain_request_decoder, rrej_rejections_are_driven, r1_only_invalid_params, r2_poison_on_error, r3_exhaustion_table, r4_absent_params, rown_into_owned, rnext_reads_T, rws_separator_sees_no_whitespace, rone_is_one_array_parse]
 CONFIGS_QUICK = ["libs-all", "corpus"]
 CONFIGS_THOROUGH = ["libs-all", "facade-full", "corpus"]
 
